@@ -534,6 +534,9 @@ class Interp:
                 if op == "BitAnd":
                     return self.ctx.alloc(HSet([x for x in ha.items if x in hb.items]))
                 return self.ctx.alloc(HSet([x for x in ha.items if x not in hb.items]))
+            if isinstance(ha, HSymSet) or isinstance(hb, HSymSet):
+                from . import symset
+                return symset.binary(self, a, b, {"BitOr": "or", "BitAnd": "and", "Sub": "diff"}[op])
         if isinstance(a, frozenset) and isinstance(b, frozenset):
             if op == "BitOr":
                 return a | b
@@ -742,6 +745,10 @@ class Interp:
                 return self.equal(tuple(ha.items), tuple(hb.items))
             if isinstance(ha, HSet) and isinstance(hb, HSet):
                 return set(ha.items) == set(hb.items)
+            if isinstance(ha, HSymSet) or isinstance(hb, HSymSet):
+                # extensional equality of the membership arrays (decided by the array theory)
+                from . import symset
+                return mk(symset.val_of(self, a).member == symset.val_of(self, b).member, "bool")
             if isinstance(ha, HDict) and isinstance(hb, HDict):
                 if set(ha.items) != set(hb.items):
                     return False
@@ -759,6 +766,9 @@ class Interp:
             if k == "fp":
                 return mk(z3.fpEQ(zof(a, "fp"), zof(b, "fp")), "bool")
             return mk(zof(a, k) == zof(b, k), "bool")
+        if isinstance(a, SymSet) or isinstance(b, SymSet):
+            from . import symset
+            return mk(symset.val_of(self, a).member == symset.val_of(self, b).member, "bool")
         # values of unrelated types compare unequal
         if type(a) is not type(b):
             return False
@@ -932,6 +942,10 @@ class Interp:
             if self.ctx.branch(z3.Not(z3.Select(base.dom, k)), "key missing"):
                 raise PyRaise("KeyError")
             return base.get(k)
+        if isinstance(base, VRef):
+            h = self.ctx.deref(base)
+            if isinstance(h, HObj) and h.cls.startswith("ext:") and "__getitem__" in (h.fields.get("__methods__") or {}):
+                return models.ext_method(self, base, h, "__getitem__", [idx], {})
         raise Unsupported(f"subscript of {base!r}")
 
     def index_concrete(self, items, idx):
